@@ -4,7 +4,7 @@ Engine E2, deviation-bounded (DESIGN section 4/C01).  Abstract packages = part n
 style vector (mc/props/c01_gen.py) are written by the harness's own zip/dir writer, round-tripped
 through `OpcPackage.open(x).save(out)` and judged with the independent reader `mc.oracles.opc_ref`
 applied to input and output; `save(open(out))` must then reproduce the same members byte for byte.
-The 67 corpus decks go through the same oracle with `OpcPackage` and with `pptx.Presentation`.
+The corpus decks (68 files at the pinned revision) go through the same oracle with `OpcPackage` and with `pptx.Presentation`.
 
 Enumerated space (pure function of the tier):
 
@@ -20,16 +20,27 @@ Enumerated space (pure function of the tier):
   PML slide type | the same XML kept as blob), container (zip stream | zip path | directory), orphan
   (none | unreachable typed members present), parallel (none | every edge doubled | exactly edge i
   doubled, for every i), external (none | on the root | on part i, for every i | on every source).
-* quick: k <= 3, every graph x every style vector with <= 1 deviating slot.
-  thorough: k <= 2 every graph x <= 2 deviating slots; k = 3 every labelled graph x <= 1 and every
-  isomorphism-class representative x <= 2 deviating slots; k = 4 class representatives x <= 1
-  deviating slot over the graph-sensitive slots (no names / no per-edge / per-part values).
+* quick (78 485 packages + 136 corpus round trips): k <= 2 every labelled graph x every style vector with
+  <= 1 deviating slot; k = 3 every labelled graph x <= 1 deviating slot without the populous values
+  (other name sets, per-edge doubling) and those populous values on one representative per isomorphism
+  class (440 classes).
+  thorough: k <= 2 every labelled graph x <= 2 deviating slots; k = 3 every labelled graph x <= 1
+  deviating slot (all values) and every class representative x exactly 2 deviating slots (names slot
+  excluded from the pairs); k = 4 class representatives x 10 graph-sensitive vectors (default + 9 single
+  deviations).  quick is a subset of thorough.
+
+Signatures: `C01|rule|minimal deviation set|shape class`.  Every failing (case, rule) is canonicalised by a
+pure function of the case: smallest sub-vector of its deviations that still fails on the same graph; 'any'
+if the star graph fails too (then the part set is shrunk), otherwise parts and edges are removed greedily
+and the remaining graph is classified (selfloop / cycle / shared-target / chain / star).  Corpus
+signatures are `C01|rule|corpus|<content type or extension detail>`.
 
 Deviations from DESIGN.md (documented reductions of an exploding space):
 * parallel edges and external relationships are style slots (one deviation each) rather than part of
   the graph enumeration (multigraph x 2^(k+1) external subsets would multiply k=3 by > 10^3);
 * the part-name set is a style slot (default subset per k, every other subset is one deviation);
-* k = 4 and the 2-deviation layer at k = 3 use isomorphism-class representatives;
+* k = 4 and the 2-deviation layer at k = 3 use isomorphism-class representatives (the k = 3 pair layer
+  leaves out the names slot; k <= 2 has it); DESIGN's "k<=4, <=2 deviations" in full is ~10^9 packages;
 * "XML-equivalent" is taken as: equal bytes, or equal C14N (without comments) of the document element
   after dropping whitespace-only text that is not under xml:space="preserve" and whose parent has element
   children and no non-blank text (element-only content); the statement does not define it, this is the
@@ -60,10 +71,10 @@ RULE = ("abstract packages = (k part names out of six) x (every simple rooted di
         "payload, container, orphan, parallel, external) with at most d deviating slots; every point is written by the "
         "harness, round-tripped through OpcPackage.open/save twice and compared with an independent OPC reader; plus "
         "every corpus deck through OpcPackage and Presentation. Non-trivial = the style vector has at least one "
-        "deviation or the graph is not a plain tree (self-loop, cycle, shared target, indirect part); points are "
+        "deviation or the graph is not the plain star (it has a self-loop, a cycle, a shared target or a part linked only from another part); points are "
         "enumerated once each, hence distinct by construction.")
 ASSUMPTIONS = [
-    "deviation-bounded: quick <= 1 deviating slot at k<=3; thorough <= 2 at k<=2 and on k=3 class representatives, <= 1 (graph-sensitive slots) at k=4 class representatives",
+    "deviation-bounded: quick <= 1 deviating slot at k<=3 (populous values at k=3 on class representatives only); thorough <= 2 at k<=2 and on k=3 class representatives (names slot not paired at k=3), <= 1 over 9 graph-sensitive deviations at k=4 class representatives",
     "parallel edges, external relationships and the choice of part names are style slots, not crossed exhaustively with each other beyond the deviation bound",
     "reference reader mc.oracles.opc_ref (zipfile + bare lxml) and the abstract model agree on every generated input (asserted per case)",
     "XML-equivalence = C14N without comments after dropping blank text in element-only content outside xml:space=preserve",
@@ -73,10 +84,9 @@ ASSUMPTIONS = [
 GRAPH_COUNTS = {1: 2, 2: 32, 3: 2432}
 K3_CLASSES = 440
 K4_LABELLED, K4_CLASSES = 745472, 32404
-K4_SLOTS_VALUES = [{}, {"target": "dot"}, {"target": "dotdot"}, {"target": "abs"},
-                   {"ids": "reversed"}, {"ids": "nonrid"}, {"ids": "rid10"},
+K4_SLOTS_VALUES = [{}, {"target": "dotdot"}, {"target": "abs"}, {"ids": "reversed"}, {"ids": "rid10"},
                    {"ctdecl": "default"}, {"types": "listed-differ"}, {"payload": "xmlrich"},
-                   {"orphan": "present"}, {"parallel": "all"}, {"external": "all"}, {"external": "root"}]
+                   {"parallel": "all"}, {"external": "all"}]
 
 _bare = etree.XMLParser(resolve_entities=False, remove_blank_text=False)
 XML_SPACE = "{http://www.w3.org/XML/1998/namespace}space"
@@ -373,7 +383,8 @@ def _adapt(style, k, edges):
 
 
 def canonical_signature(case, rule):
-    """Signature `C01|rule|minimal deviation set|shape class`, a pure function of (case, rule):
+    """(signature `C01|rule|minimal deviation set|shape class`, minimised failing case), a pure function of
+    (case, rule):
     smallest sub-vector of the deviations (size, then slot order) that still breaks `rule` on the same
     graph; then 'any' if the star graph breaks it too (after which the name set is shrunk), else the
     feature class of a greedily edge-minimised graph."""
@@ -409,20 +420,42 @@ def canonical_signature(case, rule):
                         c3 = make_case(dflt, G.star(size), st2)
                         if not (case_valid(c3) and rule in fail_rules(c3)):
                             txt = ("names=%s" % "+".join(sub)) + ("" if txt == "none" else "+" + txt)
-                    return "C01|%s|%s|any" % (rule, txt)
-        return "C01|%s|%s|any" % (rule, _dev_text(chosen))
-    # graph-dependent: greedy edge deletion in canonical order
+                    return "C01|%s|%s|any" % (rule, txt), c2
+        return "C01|%s|%s|any" % (rule, _dev_text(chosen)), c
+    # graph-dependent: drop parts, then edges, greedily in canonical order until nothing can go
+    names = list(names)
     es = [list(e) for e in edges]
-    i = 0
-    while i < len(es):
-        trial = es[:i] + es[i + 1:]
-        st = _adapt(chosen, k, trial)
-        c = make_case(names, trial, st)
-        if trial and case_valid(c) and rule in fail_rules(c):
-            es = trial
-        else:
-            i += 1
-    return "C01|%s|%s|%s" % (rule, _dev_text(chosen), G.shape_features(k, [tuple(e) for e in es]))
+    base = {s: v for s, v in chosen.items() if s != "names"}
+
+    def still_fails(nn, ne):
+        if not ne:
+            return False
+        c = make_case(nn, ne, _adapt(base, len(nn), ne))
+        return case_valid(c) and rule in fail_rules(c)
+
+    changed = True
+    while changed:
+        changed = False
+        for i in range(len(names) - 1, -1, -1):
+            if len(names) == 1:
+                break
+            nn = names[:i] + names[i + 1:]
+            ne = [[s - (1 if s > i else 0), t - (1 if t > i else 0)] for s, t in es if s != i and t != i]
+            if still_fails(nn, ne):
+                names, es, changed = nn, ne, True
+                break
+        if changed:
+            continue
+        for i in range(len(es)):
+            trial = es[:i] + es[i + 1:]
+            if still_fails(names, trial):
+                es, changed = trial, True
+                break
+    txt = _dev_text(base)
+    if "names" in chosen:
+        txt = ("names=%s" % "+".join(names)) + ("" if txt == "none" else "+" + txt)
+    return ("C01|%s|%s|%s" % (rule, txt, G.shape_features(len(names), [tuple(e) for e in es])),
+            make_case(names, es, _adapt(base, len(names), es)))
 
 
 def _report(part, case, fails):
@@ -431,10 +464,13 @@ def _report(part, case, fails):
         if rule in seen:
             continue
         seen.add(rule)
-        sig = canonical_signature(case, rule)
-        part.violation(sig, "%s: %s [names=%s edges=%s style=%s]" % (
-            rule, detail, "+".join(case["names"]), case["edges"], case["style"]),
-            {"kind": "gen", "case": case, "rule": rule})
+        sig, mini = canonical_signature(case, rule)
+        mdetail = fail_rules(mini).get(rule)
+        if mdetail is None:  # cannot happen: the minimiser only accepts failing cases
+            mini, mdetail = case, detail
+        part.violation(sig, "%s: %s [minimised witness: names=%s edges=%s style=%s]" % (
+            rule, mdetail, "+".join(mini["names"]), mini["edges"], mini["style"]),
+            {"kind": "gen", "case": mini, "rule": rule})
 
 
 def _run_point(part, names_k, edges, style):
@@ -445,7 +481,7 @@ def _run_point(part, names_k, edges, style):
     fails = eval_case(case)
     part.count("evaluations")
     shape = G.shape_features(k, [tuple(e) for e in edges])
-    if style or not shape.endswith(":tree"):
+    if style or shape != "star":
         part.count("nontrivial_count")
     part.add("shapes", shape)
     part.count("dev%d" % len(style))
@@ -477,6 +513,10 @@ def _vectors(k, nedges, mode):
     if mode == "pairs":
         n1 = G.count_style_vectors(k, nedges, 1)
         return G.style_vectors(k, nedges, 2)[n1:], G.count_style_vectors(k, nedges, 2) - n1
+    if mode == "pairs-nonames":
+        slots = [s for s in G.SLOT_ORDER if s != "names"]
+        n1 = G.count_style_vectors(k, nedges, 1, slots)
+        return G.style_vectors(k, nedges, 2, slots)[n1:], G.count_style_vectors(k, nedges, 2, slots) - n1
     raise ValueError(mode)
 
 
@@ -609,7 +649,7 @@ def run(ctx):
     if ctx.thorough:
         # every labelled graph x <= 1 deviation; class representatives x exactly 2 deviations
         items += [(3, gi, "full1") for gi in range(len(graphs[3]))]
-        items += [(3, gi, "pairs") for gi in reps3]
+        items += [(3, gi, "pairs-nonames") for gi in reps3]
     else:
         # every labelled graph x <= 1 deviation without the populous values; those on the representatives
         items += [(3, gi, "light1") for gi in range(len(graphs[3]))]
@@ -617,7 +657,7 @@ def run(ctx):
     for k, gi, mode in items:
         expected += _vectors(k, len(graphs[k][gi]), mode)[1]
     # cost per item varies by three orders of magnitude: interleave, small chunks
-    items.sort(key=lambda it: (it[2] not in ("pairs", "full2"), it[0], it[1]))
+    items.sort(key=lambda it: (it[2] not in ("pairs-nonames", "full2"), it[0], it[1]))
     fanout(ctx, _work_graphs, ctx.rotate(items), chunk_size=(1 if ctx.thorough else 6))
 
     if ctx.thorough:
@@ -636,7 +676,7 @@ def run(ctx):
     ctx.extra["generated_packages"] = gen_evals
     ctx.extra["deviation_bound_completed"] = (
         "k<=2: 2, k=3: 1 on all labelled graphs and 2 on class representatives, k=4 (class representatives): 1 over %d graph-sensitive vectors"
-        % len(K4_SLOTS_VALUES) if ctx.thorough else "k<=3: 1")
+        % len(K4_SLOTS_VALUES) if ctx.thorough else "k<=3: 1 (k=3: other name sets and per-edge doubling on class representatives only)")
 
     # corpus
     decks = fixtures.corpus()
